@@ -24,7 +24,23 @@ RULE = ("translator (T): every <P>_COMBINATOR assignment and serialize_<p>/deser
         "width / height / body in this order; the INDEPENDENT pzpr decoders of Codec/Pzpr.v (extracted; authoritative) read the body "
         "back as the same problem (rooms via an independent flood fill in the harness); legacy encoders (encode_array, "
         "encode_grid_segmentation) and combinator codecs give identical text on identical data.  A case is non-trivial when it is a "
-        "distinct (kind, module, size, problem/text).")
+        "distinct (kind, module, size, problem/text).  "
+        "hardening (both in the tie and in the search): every generated problem is rebuilt from newly created objects (ints via "
+        "int(str(v)), strings via join, fresh tuples/lists) so that equality-vs-identity slips show; HISTORIES — every encoder is called "
+        "twice on the same argument objects, the arguments are deep-copied before and compared after (they must be unchanged), the second "
+        "result must equal the first / the model's, the expected problem is computed from the copy taken before the call; every decoder "
+        "result is emptied in place and the URL decoded again (no aliased cache), a decoded problem must not contain one list object twice; "
+        "encode -> other use of the same objects (legacy encoder after / before the combinator codec on one grid object, cell->room/clue "
+        "map, solve_heyawake on boards of <= 16 cells before vs after serialize_heyawake); CONTAINER FORMS — tuples, generators, iter, "
+        "map, reversed, zip, generators nested in lists, another listing order, for every argument the code merely iterates (heyawake "
+        "rooms/clues and rectangles, compass clues, aquarium blocks and clue lists, block-id grids, encode_array with dim given; grid rows "
+        "as tuples): same text as for the list form, the model always sees the materialised list; SIZES — runs of empties of length "
+        "19..101 around every multiple of 20/26/36 (leading, inner, trailing, two runs, all-empty boards) on 1xN, Nx1, 7/36/37-wide "
+        "boards, boards with a side of 36..73 and 300, clue lists of heyawake/aquarium with such runs; VALUES the format cannot carry "
+        "(>= 4096, negative, masyu 3, slitherlink 5): the encoder must raise, or else the URL it returns must satisfy the property; "
+        "OPTIONS — deserialize_problem_as_url with every combination of allowed_puzzles (omitted/None/str/list/empty list), "
+        "allow_failure, return_size given, omitted or positional; encode_array keyword / positional / defaults omitted; "
+        "util.encode_array against Grid(OneOf(Spaces(empty, marker), HexInt())) for markers 0,1,a,g,h,k,z and empty values -1/None/0/5000/'.'.")
 TRUSTED = [
     "the pzpr body formats as transcribed in Codec/Pzpr.v from pzpr.js' Encode.js rules (decodeNumber16, decode4Cell, decodeCircle, "
     "decodeArrowNumber16, decodeBorder, decodeRoomNumber16, decodeNumber16ExCell; compass: four number16 tokens up/down/left/right per "
@@ -45,6 +61,10 @@ ASSUMPTIONS = [
     "clue values are within what the text format can carry (0..4095; compass/aquarium legacy encoders: -1 = blank); larger values make "
     "the encoders raise and produce no URL",
     "decoding of arbitrary / malformed text is property C17's subject; here malformed inputs are only part of the correspondence stream",
+    "the codec functions are functions of the VALUE of their arguments: they leave the caller's objects unchanged, give the same result when "
+    "called again on the same objects, and hand out results that share no mutable state with a later call (checked as histories)",
+    "container forms checked are those the unchanged code accepts (arguments it only iterates / indexes); a one-shot iterable passed to "
+    "util.encode_array without dim= is outside (the dimension probe consumes it); list-of-list requirements of Grid/Rooms are kept",
 ]
 
 ERR = {1: "IndexError", 2: "KeyError", 3: "AssertionError", 4: "TypeError", 5: "ValueError",
@@ -829,7 +849,7 @@ def search_grid(ctx, m, viol, module):
             data2, _ = legacy_cells(module, g2)
             le2 = vlib.guarded(lambda: ut.encode_array(data2, empty=empty, dim=2))
             r4 = vlib.guarded(lambda: ser_fn(g2))
-            if le2 != ("ok", body) or r4 != ("ok", url) or not H.same(g2, g0):
+            if le == ("ok", body) and (le2 != ("ok", body) or r4 != ("ok", url) or not H.same(g2, g0)):
                 viol(module, "legacy-first", cat, "util.encode_array(dim=2) first, serialize_%s second on the same grid: texts differ or the grid changed" % module,
                      dict(det, body=body, encode_array=short(le2), serialize_after=short(r4), grid_after=short(g2)))
 
@@ -1097,7 +1117,7 @@ def search_arrays(ctx, m, viol):
             forms.append(("marker omitted", lambda: ut.encode_array(H.fresh(rows0), empty=empty)))
         if empty is None:
             forms.append(("empty omitted", lambda: ut.encode_array(H.fresh(rows0), single_empty_marker=marker)))
-        for (fname, f) in forms:
+        for (fname, f) in (forms if le == ("ok", text) else []):   # (a form is compared only when the plain call is right)
             ctx.prop_case("form:encode_array", (fname, repr(rows), repr(empty), marker))
             r = vlib.guarded(f)
             if r != ("ok", text):
